@@ -144,6 +144,12 @@ func c14Record(tier string, seed int64, emit func(interface{})) {
 		seq := poly.Sequence{Sequence: string(sb)}
 		seq.Meta.Name, seq.Meta.RegionStart, seq.Meta.RegionEnd = name, 1, ln
 		rec := map[string]interface{}{"name": name, "rstart": 1, "rend": ln, "seq": string(sb)}
+		if rng.Intn(8) == 0 {
+			// region bounds left unset in memory (a sequence assembled in code): the library's documented default is
+			// the header "<name> 1 1"; the features keep their coordinates all the same
+			seq.Meta.RegionStart, seq.Meta.RegionEnd = 0, 0
+			rec["rend"] = 1
+		}
 		feats := []map[string]interface{}{}
 		for j := 0; j < rng.Intn(31); j++ {
 			s := 1 + rng.Intn(ln)
@@ -186,10 +192,9 @@ func c14Record(tier string, seed int64, emit func(interface{})) {
 				}
 			}()
 			if rng.Intn(4) == 0 {
-				p := tmpFile(nil)
+				p := stalePath("gff")
 				gff.Write(seq, p)
 				text, _ = os.ReadFile(p)
-				os.Remove(p)
 			} else {
 				text = gff.Build(seq)
 			}
